@@ -3,7 +3,7 @@ import PyxModel.Load
 
 /-! s-expression codec for the statement-level loader model (shared by Driver/C03 and Driver/C18)
 
-    types   boolean integer real string unique_id
+    types   boolean integer real string unique_id, or the spelled name as a string ("Unique_Id")
     values  (i 5) (s "x") (b T) (u 7) (r 1500000) none
     stmts   (cls "K" (("a" integer) …))
             (assoc "R1" "A" T F ("k" …) "phrase" "B" F T ("id" …) "phrase")      booleans: many, conditional
@@ -19,6 +19,7 @@ def decTy : Sexp → Option Ty
   | sym "real" => some .real
   | sym "string" => some .string
   | sym "unique_id" => some .uniqueId
+  | str s => Ty.ofName s           -- the type name as spelled in the statement, any letter case
   | _ => none
 
 def encTy : Ty → Sexp
